@@ -156,6 +156,27 @@ func vC04Queries(e *vEnv, docs []vDoc, vocab []string) []vBase {
 	for k := range vScenarios() {
 		qs = append(qs, vMakeBase(r, 4, docs, k, vocab))
 	}
+	// inputs that end in the middle of a UTF-8 sequence, or in invalid bytes: whatever
+	// the tokenizer's buffers held before must not leak into how the tail is decoded
+	tails := []string{"\xc3", "\xe2\x80", "\xf0\x9f\x98", "\xe2", "\xf0", "\xc3\n", " x\xc3", "\xff", "é", "漢"}
+	for k := 0; k < e.pick(120, 600); k++ {
+		d := docs[r.Intn(len(docs))]
+		// mostly inputs that fit one read buffer (1020 bytes): only there can bytes left
+		// behind by an EARLIER call follow the tail; longer ones for the other chunks
+		limit := 900
+		if k%4 == 3 {
+			limit = 8000
+		}
+		if len(d.raw) > limit {
+			continue
+		}
+		pad := strings.Repeat(" ", r.Intn(7))
+		pre := ""
+		if len(d.raw) < 800 && r.Intn(2) == 0 {
+			pre = vOOVLine(r) + "\n"
+		}
+		qs = append(qs, vBase{"dangling-tail:" + d.key, pre + pad + strings.TrimRight(string(d.raw), " \n\r\t") + tails[k%len(tails)]})
+	}
 	// duplicates under two names planted together with notices: more ties
 	for k := 0; k < e.pick(20, 120); k++ {
 		d := docs[r.Intn(len(docs))]
@@ -237,6 +258,19 @@ func TestVerifC04(t *testing.T) {
 					return
 				}
 			}
+			flood := func() {
+				if strings.HasPrefix(q.name, "dangling-tail") || r.Intn(10) == 0 {
+					// the LAST thing before the repeated call: fill whatever buffers the
+					// implementation keeps with multi-byte sequences
+					f := strings.Repeat([]string{"é", "漢", "😀", "é漢"}[r.Intn(4)], 600+r.Intn(900))
+					if r.Intn(2) == 0 {
+						c.Match([]byte(f))
+					} else {
+						c.MatchFrom(strings.NewReader(f))
+					}
+				}
+			}
+			flood()
 			r2, ok := call(cs, in, 2)
 			if !ok {
 				return
@@ -245,6 +279,22 @@ func TestVerifC04(t *testing.T) {
 				cs.violation("repeat-differs", "same bytes, same classifier (%s), second call after other calls differs:\n first:  %s\n second: %s", cfg.name, first, s)
 				return
 			}
+			if strings.HasPrefix(q.name, "dangling-tail") {
+				// several more rounds: which recycled buffer a call gets is not under the
+				// harness' control
+				for k := 0; k < 6; k++ {
+					flood()
+					rk, ok := call(cs, in, k)
+					if !ok {
+						return
+					}
+					if s := vCanonOrdered(rk); s != first {
+						cs.violation("repeat-differs", "same bytes (input ends inside a UTF-8 sequence), same classifier (%s), call %d after matching multi-byte text differs:\n first: %s\n now:   %s", cfg.name, k+3, first, s)
+						return
+					}
+				}
+			}
+			flood()
 			r3, _ := call(cs, in, 1)
 			if s := vCanonOrdered(r3); s != first {
 				cs.violation("repeat-differs", "third call differs:\n first: %s\n third: %s", first, s)
